@@ -7,7 +7,7 @@ C01.5 seq-cell typestate for every session / tool / provider frame construction
 C01.6 provider pipe offset siblings"""
 import re
 
-from ..core import CheckError, Site, op_base, op_const, op_local, op_place
+from ..core import switches, CheckError, Site, op_base, op_const, op_local, op_place
 from ..prov import derives_from_local, sources
 
 SEQ_GUARD = r"^std::sync::poison::mutex::MutexGuard<'_, std::collections::hash::map::HashMap<alloc::string::String, u64>>$"
@@ -122,8 +122,11 @@ def seq_source_call_ok(P, fn, src, guard, depth=0):
 
 
 def ok_edge_of_try(fn, site):
-    """(switch_block, ok_target) of the `?` applied to the result of `site` (possibly
-    through map_err)."""
+    """(switch_block, ok_target) of the error test applied to the Result of `site`: the `?`
+    operator (possibly through map_err), or its hand-written equivalents — `match r { Ok(v) => ..,
+    Err(e) => return .. }`, `if let Err(e) = r { return .. }`, `if r.is_err() { return .. }`.
+    For the hand-written forms the Err edge must not fall through to the code after the test
+    (it returns), otherwise the result is merely inspected, not propagated."""
     cur = site
     for _ in range(4):
         # result local -> next call consuming it
@@ -139,11 +142,37 @@ def ok_edge_of_try(fn, site):
                     return (sw[0], sw[1].get('0'))
                 if re.search(r'::map_err$', s2.callee):
                     nxt = s2
+                if re.search(r'Result::<T, E>::(is_err|is_ok)$', s2.callee):
+                    sw = fn.switch_on_call(s2)
+                    if sw is not None:
+                        bb, ts, els, neg = sw
+                        true_t, false_t = (ts.get('0'), els) if neg else (els, ts.get('0'))
+                        ok_t, err_t = (false_t, true_t) if s2.name == 'is_err' else (true_t, false_t)
+                        if ok_t is not None and err_t is not None and _err_edge_returns(fn, err_t, ok_t, bb):
+                            return (bb, ok_t)
+            elif how == 'stmt' and payload['rv']['k'] == 'discr' and 'p' not in payload['rv']['pl'] and fn.lty(l).startswith('core::result::Result<'):
+                d = payload['d']['l']
+                for (sbi, on, ts, els) in switches(fn):
+                    pl = op_place(on)
+                    if pl is not None and 'p' not in pl and pl['l'] == d and sbi == bi:
+                        ok_t = ts.get('0') if '0' in ts else (els if '1' in ts else None)
+                        err_t = ts.get('1') if '1' in ts else (els if '0' in ts else None)
+                        if ok_t is not None and err_t is not None and _err_edge_returns(fn, err_t, ok_t, sbi):
+                            return (sbi, ok_t)
         if nxt is None:
             return None
         cur = nxt
     return None
 
+
+def _err_edge_returns(fn, err_t, ok_t, test_bb=None):
+    """the Err arm leaves the function (does not come back to what follows the Ok arm). Inside a
+    loop the next iteration passes the test again, so both arms are followed only up to it."""
+    stop = [test_bb] if test_bb is not None else []
+    r = fn.reach(err_t, stop=stop)
+    ok_reach = fn.reach(ok_t, stop=stop)
+    shared = [b for b in r if b in ok_reach and b != test_bb and fn.blocks[b]['t']['k'] == 'call' and not re.search(r'drop_in_place|::drop$', (fn.blocks[b]['t']['f'].get('r') or fn.blocks[b]['t']['f'].get('p') or ''))]
+    return not shared
 
 def run(ctx):
     P = ctx.prog
